@@ -77,9 +77,9 @@ def _tag_strategy():
 @st.composite
 def st_ordered_check(draw, tag, t, pos, clean, role="column"):
     kinds = ["eq", "ne", "gt", "ge", "lt", "le", "in_range", "isin", "notin", "ew_gt", "vec_ge", "strat_le",
-             "ext_ge"]
+             "ext_ge", "gt", "lt"]  # strict bounds twice: their boundary handling is the subtle part
     if clean and role in ("index", "level"):
-        kinds.remove("vec_ge")
+        kinds = [k for k in kinds if k != "vec_ge"]
     if pos == 0:
         c = draw(st.one_of(st.sampled_from(["eq", "isin", "in_range", "in_range"]), st.sampled_from(kinds)))
     else:
@@ -129,8 +129,14 @@ def st_str_chain(draw, n, clean):
     import re as _re
 
     chain = []
+    full = _re.escape(pre) + midp + _re.escape(suf)
     for pos in range(n):
-        c = draw(st.sampled_from(sp.STR_CHECKS + ["str_startswith", "str_endswith", "str_length"]))
+        if pos == 0 and draw(st.booleans()):
+            # restrictive base: later checks then act as filters on target-like strings
+            c = draw(st.sampled_from(["eq", "isin", "str_matches"]))
+        else:
+            c = draw(st.sampled_from(sp.STR_CHECKS + ["str_matches", "str_contains", "str_startswith", "str_endswith",
+                                                      "str_length"]))
         if clean and pos > 0 and c == "eq":
             c = "ne"
         consistent = draw(st.integers(0, 9)) < 8
@@ -143,8 +149,10 @@ def st_str_chain(draw, n, clean):
         elif c == "notin":
             chain.append({"c": c, "vs": [pre, suf, ""] if consistent else [target, pre]})
         elif c == "str_matches":
-            p = draw(st.sampled_from([_re.escape(pre) + midp, _re.escape(pre) + ".*" + _re.escape(suf),
-                                      _re.escape(pre) + midp + _re.escape(suf), midp]))
+            if pos == 0:
+                p = draw(st.sampled_from([full, full, _re.escape(pre) + midp, _re.escape(pre) + ".*" + _re.escape(suf), midp]))
+            else:
+                p = draw(st.sampled_from([midp, midp, _re.escape(pre) + midp, _re.escape(pre) + ".*", full]))
             chain.append({"c": c, "p": p})
         elif c == "str_contains":
             chain.append({"c": c, "p": draw(st.sampled_from([midp, _re.escape(suf) + "$", "^" + _re.escape(pre)]))})
@@ -319,6 +327,10 @@ def model(case):
     for role, f, chain in _fields(case):
         uniq = f.get("unique", False) or (f["name"] in joint and role == "column")
         s, vals = sp.field_sat(f["dtype"], chain, f.get("nullable", False), uniq, n, f.get("pool", ()))
+        if s == "unsat" and uniq and not f.get("unique", False):
+            # joint uniqueness only needs distinct *tuples*: a column short of distinct values proves nothing
+            s0, _ = sp.field_sat(f["dtype"], chain, f.get("nullable", False), False, n, f.get("pool", ()))
+            s = "unsat" if s0 == "unsat" else "unknown"
         if s == "sat" and uniq and free_size:
             # size=None lets hypothesis pick the length first; a unique field over a handful of values then
             # legitimately reports InvalidArgument/Unsatisfiable: claim 'sat' only with plenty of values
